@@ -15,6 +15,7 @@ import (
 	"verifharness/world"
 
 	"github.com/google/go-tdx-guest/verify"
+	"github.com/google/go-tdx-guest/verify/trust"
 )
 
 // Registry maps property id -> workload.
@@ -203,4 +204,77 @@ func enableShadow(x *mon.Ctx) {
 func enableShadowForTwins(x *mon.Ctx) {
 	x.Shadow, x.ShadowAll = true, false
 	x.SharedPool = make(chan any, 64)
+}
+
+// indexBugGetter is a caller-written getter with a bug: it serves the first `good` requests from the scripted getter and then
+// indexes past the end of a table.
+type indexBugGetter struct {
+	inner trust.HTTPSGetter
+	good  int
+	n     int
+}
+
+func (g *indexBugGetter) Get(u string) (map[string][]string, []byte, error) {
+	g.n++
+	if g.n > g.good {
+		var table []string
+		_ = table[g.n] // index out of range
+	}
+	return g.inner.Get(u)
+}
+
+// crashingCollaborators: a collaborator the caller supplied (the collateral getter) does not return an error — it PANICS, at the
+// first request or after having served some. Whatever the library does about that (let the panic reach the caller, or turn it
+// into an error), a quote that must be refused is not reported as verified. reject must be a must-reject case at a collateral level.
+func crashingCollaborators(x *mon.Ctx, class string, reject *world.Case) {
+	n := 0
+	for _, form := range []string{"raw", "message"} {
+		for gi, mk := range []func(inner trust.HTTPSGetter) (string, trust.HTTPSGetter){
+			func(inner trust.HTTPSGetter) (string, trust.HTTPSGetter) {
+				return "typed-nil-retry-getter", (*trust.RetryHTTPSGetter)(nil)
+			},
+			func(inner trust.HTTPSGetter) (string, trust.HTTPSGetter) {
+				return "retry-getter-without-inner-getter", &trust.RetryHTTPSGetter{Timeout: time.Second, MaxRetryDelay: 10 * time.Millisecond}
+			},
+			func(inner trust.HTTPSGetter) (string, trust.HTTPSGetter) {
+				return "index-bug-at-request-1", &indexBugGetter{inner: inner}
+			},
+			func(inner trust.HTTPSGetter) (string, trust.HTTPSGetter) {
+				return "index-bug-at-request-2", &indexBugGetter{inner: inner, good: 1}
+			},
+			func(inner trust.HTTPSGetter) (string, trust.HTTPSGetter) {
+				return "index-bug-at-request-3", &indexBugGetter{inner: inner, good: 2}
+			},
+			func(inner trust.HTTPSGetter) (string, trust.HTTPSGetter) {
+				return "index-bug-at-request-4", &indexBugGetter{inner: inner, good: 3}
+			},
+		} {
+			for _, crl := range []bool{false, true} {
+				c := *reject
+				c.GetCollateral, c.CheckCRL = true, crl
+				o, g := mon.Options(&c)
+				name, bad := mk(g)
+				o.Getter = bad
+				var err error
+				pv, _ := mon.Guard(func() {
+					if form == "raw" {
+						err = verify.RawTdxQuote(c.Quote, o)
+					} else {
+						err = verify.TdxQuote(mon.MessageFor("built", c.Quote), o)
+					}
+				})
+				param := fmt.Sprintf("%s/%s/crl=%v#%d", name, form, crl, gi)
+				prob := ""
+				if pv == "" && err == nil {
+					prob = "the collateral getter panicked and the quote, which must be refused (" + reject.Class + "/" + reject.Param + "), was reported as verified"
+				}
+				if prob != "" {
+					x.Violation(class, param, prob, "none", param)
+				}
+				x.Note(class, param, false, pv != "", prob == "")
+				n++
+			}
+		}
+	}
+	x.Require(class, 0, 0, n) // (most of these end in a panic reaching the caller, which is neither an accept nor a reject)
 }
